@@ -96,3 +96,26 @@ package syslutil
 //@ func (*ChrootFs).%
 //@   requires fs.fs != nil && isAbs(fs.root)
 //@   assert @call:iface:github.com/spf13/afero.Fs.% [wrapped-fs-arg-confined] confined(fs.root, it)
+
+// ---- string sets (used by the integration-diagram builder, C14)
+
+// Union builds a new set; neither operand is written, and the result holds exactly the members of the two.
+//@ func (StrSet).Union
+//@   pure
+//@   fresh
+//@   ensures [new-set] result != nil && fresh(result)
+//@   ensures [every-member-of-the-receiver] forallstr(k, in(k, s) ==> in(k, result))
+//@   ensures [every-member-of-the-other-set] forallstr(k, in(k, other) ==> in(k, result))
+//@   loop 0 invariant [own] out != nil && fresh(out)
+//@   loop 0 invariant [members-so-far] forall(j, 0, rangeindex + 1, in(iterkey(s, j), out))
+//@   loop 1 invariant [own] out != nil && fresh(out)
+//@   loop 1 invariant [receiver-done] forallstr(k, in(k, s) ==> in(k, out))
+//@   loop 1 invariant [members-so-far] forall(j, 0, rangeindex + 1, in(iterkey(other, j), out))
+//@ func MakeStrSet
+//@   pure
+//@   ensures [new-set] result != nil && fresh(result)
+//@   loop 0 invariant [own] s != nil && fresh(s)
+//@ func MakeStrSetFromAttr
+//@   pure
+//@   ensures [new-set] result != nil && fresh(result)
+//@   loop 0 invariant [own] s != nil && fresh(s)
